@@ -24,12 +24,62 @@ pub struct Cfg {
     pub phase: f64,
     pub timing: f64,
     pub mt: bool,
+    /// Samples of silence before the transmission ("at any position in the
+    /// stream").
+    pub lead: usize,
+    /// Empty: the whole signal from a VectorSource. Otherwise a source that
+    /// hands the signal out in pieces of these sizes, cyclically (as an audio
+    /// or SDR source does).
+    pub pieces: Vec<usize>,
+}
+
+/// Source handing out a fixed signal in pieces of given sizes.
+struct PieceSource<T: Copy> {
+    dst: rustradio::stream::WriteStream<T>,
+    data: Vec<T>,
+    pos: usize,
+    pieces: Vec<usize>,
+    k: usize,
+}
+
+impl<T: Copy> PieceSource<T> {
+    fn new(data: Vec<T>, pieces: Vec<usize>) -> (Self, rustradio::stream::ReadStream<T>) {
+        let (dst, r) = rustradio::stream::new_stream();
+        (Self { dst, data, pos: 0, pieces, k: 0 }, r)
+    }
+}
+
+impl<T: Copy> rustradio::block::BlockName for PieceSource<T> {
+    fn block_name(&self) -> &str {
+        "PieceSource"
+    }
+}
+impl<T: Copy> rustradio::block::BlockEOF for PieceSource<T> {}
+impl<T: Copy> Block for PieceSource<T> {
+    fn work(&mut self) -> rustradio::Result<rustradio::block::BlockRet> {
+        use rustradio::block::BlockRet;
+        if self.pos == self.data.len() {
+            return Ok(BlockRet::EOF);
+        }
+        let mut o = self.dst.write_buf()?;
+        let want = self.pieces[self.k % self.pieces.len()].min(self.data.len() - self.pos);
+        if o.len() < want {
+            // Keep pieces whole: wait for room.
+            return Ok(BlockRet::WaitForStream(&self.dst, want));
+        }
+        o.slice()[..want].copy_from_slice(&self.data[self.pos..self.pos + want]);
+        o.produce(want, &[]);
+        self.pos += want;
+        self.k += 1;
+        Ok(BlockRet::Again)
+    }
 }
 
 impl Cfg {
     fn to_json(&self) -> Value {
         json!({"baud": self.baud, "rate": self.rate, "family": self.family, "len": self.len, "frames": self.frames,
-            "between": self.between, "preamble": self.preamble, "phase": self.phase, "timing": self.timing, "mt": self.mt})
+            "between": self.between, "preamble": self.preamble, "phase": self.phase, "timing": self.timing, "mt": self.mt,
+            "lead": self.lead, "pieces": self.pieces})
     }
     fn from_json(v: &Value) -> Self {
         Self {
@@ -43,6 +93,8 @@ impl Cfg {
             phase: v["phase"].as_f64().unwrap(),
             timing: v["timing"].as_f64().unwrap(),
             mt: v["mt"].as_bool().unwrap(),
+            lead: v["lead"].as_u64().unwrap_or(0) as usize,
+            pieces: v["pieces"].as_array().map(|a| a.iter().map(|x| x.as_u64().unwrap() as usize).collect()).unwrap_or_default(),
         }
     }
 }
@@ -149,8 +201,9 @@ pub fn run_cfg(c: &Cfg) -> Result<Vec<Vec<u8>>, String> {
         };
         let sps = c.rate as f64 / 1200.0;
         let trailing = ((2 * fft_block + 200) as f64 / sps / 8.0) as usize + 4;
-        let sig = afsk(&tx_bits(c, trailing), c.rate, c.phase, c.timing);
-        let prev = add!(VectorSource::new(sig));
+        let mut sig = vec![0.0 as Float; c.lead];
+        sig.extend(afsk(&tx_bits(c, trailing), c.rate, c.phase, c.timing));
+        let prev = if c.pieces.is_empty() { add!(VectorSource::new(sig)) } else { add!(PieceSource::new(sig, c.pieces.clone())) };
         let prev = add!(Hilbert::new(prev, 65, &WindowType::Hamming));
         let prev = add!(QuadratureDemod::new(prev, 1.0));
         let prev = add!(FftFilterFloat::new(prev, &taps));
@@ -179,8 +232,9 @@ pub fn run_cfg(c: &Cfg) -> Result<Vec<Vec<u8>>, String> {
         };
         let sps = c.rate as f64 / 9600.0;
         let trailing = ((2 * fft_block + 200) as f64 / sps / 8.0) as usize + 4;
-        let sig = g3ruh(&tx_bits(c, trailing), c.rate, c.phase, c.timing);
-        let prev = add!(VectorSource::new(sig));
+        let mut sig = vec![Complex::new(0.0, 0.0); c.lead];
+        sig.extend(g3ruh(&tx_bits(c, trailing), c.rate, c.phase, c.timing));
+        let prev = if c.pieces.is_empty() { add!(VectorSource::new(sig)) } else { add!(PieceSource::new(sig, c.pieces.clone())) };
         let prev = add!(FftFilter::new(prev, &taps));
         let prev = add!(RationalResampler::new(prev, 50_000, c.rate as usize).map_err(|e| format!("{e}"))?);
         let prev = add!(QuadratureDemod::new(prev, 1.0));
@@ -295,6 +349,8 @@ fn grid(thorough: bool) -> Vec<Cfg> {
                                                 phase: *ph,
                                                 timing: *tm,
                                                 mt,
+                                                lead: 0,
+                                                pieces: vec![],
                                             });
                                         }
                                     }
@@ -324,6 +380,56 @@ fn grid(thorough: bool) -> Vec<Cfg> {
                     phase: 0.0,
                     timing: 0.25 * i as f64,
                     mt,
+                    lead: 0,
+                    pieces: vec![],
+                });
+            }
+        }
+    }
+    // "At any position in the stream": transmissions that start after a long
+    // silence, so that they cross the points where the chain's inner buffers
+    // have wrapped and filled (beyond one million samples). And sources that
+    // deliver the signal in uneven pieces, short ones included.
+    let leads: &[usize] = if thorough { &[300_000, 600_000, 900_000, 1_400_000] } else { &[900_000] };
+    for (baud, rates) in [(1200u32, &rates1200[..]), (9600, &rates9600[..])] {
+        for (i, rate) in rates.iter().enumerate() {
+            for lead in leads {
+                for mt in [false, true] {
+                    v.push(Cfg {
+                        baud,
+                        rate: *rate,
+                        family: ["counting", "3f", "ones"][i].to_string(),
+                        len: 300,
+                        frames: 3,
+                        between: 2,
+                        preamble: 20,
+                        phase: 0.0,
+                        timing: 0.25 * i as f64,
+                        mt,
+                        lead: *lead,
+                        pieces: vec![],
+                    });
+                }
+            }
+            let piece_sets: Vec<Vec<usize>> = if thorough {
+                vec![vec![1000, 20], vec![4096, 7], vec![64], vec![65, 1], vec![3000, 1, 1, 33]]
+            } else {
+                vec![vec![1000, 20], vec![4096, 7]]
+            };
+            for pieces in piece_sets {
+                v.push(Cfg {
+                    baud,
+                    rate: *rate,
+                    family: "counting".to_string(),
+                    len: 64,
+                    frames: 3,
+                    between: 2,
+                    preamble: 20,
+                    phase: 0.0,
+                    timing: 0.25 * i as f64,
+                    mt: false,
+                    lead: 0,
+                    pieces,
                 });
             }
         }
